@@ -45,6 +45,18 @@ class Contract(object):
     def bind(self):
         """locate the real function and the spec ASTs"""
         self.mod, self.node, self.clsnode = find_function(self.target)
+        if getattr(self.node, "is_fragment", False):
+            # a loop of a larger function, extracted mechanically on every run: its free variables are the declared parameters,
+            # its result the declared live-out variables; everything of the enclosing function outside the statement is dropped
+            self.node.args.args = [ast.arg(arg=p, annotation=None) for p in self.params]
+            outs = tuple(getattr(self.cls, "fragment_result", ()))
+            ret = ast.Return(value=ast.Tuple(elts=[ast.Name(id=o, ctx=ast.Load()) for o in outs], ctx=ast.Load()))
+            last = self.node.body[0]
+            for n in ast.walk(ret):
+                n.lineno, n.col_offset = last.end_lineno + 1, 0
+                n.end_lineno, n.end_col_offset = last.end_lineno + 1, 1
+            self.node.body = [self.node.body[0], ret]
+            self.clsnode = None
         smod = sys.modules[self.cls.__module__]
         self.spec_mod = _spec_module_info(smod)
         cnode = self.spec_mod.classes[self.cls.__name__]
